@@ -35,47 +35,16 @@ META = {
 FIXTURE = 'mdib_two_mds.xml'
 
 
-class Crash(Exception):
-    """The application exception raised inside a transaction body."""
-
-
-class CrashCtl:
-    def __init__(self, crash_at):
-        self.crash_at = crash_at
-        self.count = 0
-        self.crashed = False
-        self.modified = False
-
-    def tick(self):
-        if self.crash_at is not None and self.count == self.crash_at:
-            self.crashed = True
-            raise Crash(f'crash point {self.count}')
-        self.count += 1
-
-
-class MgrProxy:
-    def __init__(self, mgr, ctl):
-        object.__setattr__(self, '_mgr', mgr)
-        object.__setattr__(self, '_ctl', ctl)
-
-    def __getattr__(self, name):
-        attr = getattr(self._mgr, name)
-        if callable(attr) and not name.startswith('_'):
-            ctl = self._ctl
-
-            def wrapper(*a, **kw):
-                r = attr(*a, **kw)
-                ctl.modified = True
-                ctl.tick()
-                return r
-            return wrapper
-        return attr
+Crash, CrashCtl, MgrProxy = MP.Crash, MP.CrashCtl, MP.MgrProxy
 
 
 def full_snapshot(mdib):
     return {'mdib': C.canon_mdib(mdib), 'sizes': (len(mdib.descriptions.objects), len(mdib.states.objects),
                                                   len(mdib.context_states.objects)),
-            'audit': tuple(C.audit_mdib(mdib)), 'ref': tuple(C.referential_problems(mdib))}
+            'audit': tuple(C.audit_mdib(mdib)), 'ref': tuple(C.referential_problems(mdib)),
+            # the version counters remembered for deleted handles are MDIB state as well
+            'remembered': (dict(mdib.descriptions.handle_version_lookup), dict(mdib.states.handle_version_lookup),
+                           dict(mdib.context_states.handle_version_lookup))}
 
 
 def diff_snapshot(a, b):
@@ -86,6 +55,11 @@ def diff_snapshot(a, b):
         out.append(('lookup audit', a['audit'][:2], b['audit'][:2]))
     if a['ref'] != b['ref']:
         out.append(('referential', a['ref'][:2], b['ref'][:2]))
+    if a['remembered'] != b['remembered']:
+        for x, y, name in zip(a['remembered'], b['remembered'], ('descriptors', 'states', 'context_states')):
+            if x != y:
+                out.append((f'remembered-versions.{name}', {k: (x.get(k, '<absent>'), y.get(k, '<absent>'))
+                                                            for k in x.keys() | y.keys() if x.get(k) != y.get(k)}, ''))
     return out
 
 
@@ -111,13 +85,33 @@ def nested_write(obj, a: int, b: int, min_depth: int = 2):
             elif cur:
                 cur.append(cur[0])
             else:
-                continue
+                item = _new_list_item(prop)
+                if item is None:
+                    continue
+                cur.append(item)  # grow a list that is empty in the MDIB, in place
             return path
         new = _other_value(cur, prop, b)
         if new is None:
             continue
         object.__setattr__(holder, prop._local_var_name, new)  # noqa: SLF001  (plain attribute write, no validation)
         return path
+    return None
+
+
+def _new_list_item(prop):
+    from sdc11073.xml_types import xml_structure as xs
+    if isinstance(prop, xs.SubElementListProperty):
+        try:
+            item = T.new_instance(prop.value_class)
+        except Exception:  # noqa: BLE001
+            return None
+        for name, text_prop in (('Code', xs.StringAttributeProperty), ('text', xs.NodeStringProperty)):
+            if isinstance(getattr(type(item), name, None), text_prop) and not getattr(item, name):
+                setattr(item, name, 'vf')
+        return item
+    if isinstance(prop, (xs.SubElementTextListProperty, xs._AttributeListBase)) and not isinstance(  # noqa: SLF001
+            prop, xs.DecimalListAttributeProperty):
+        return 'vf'
     return None
 
 
@@ -396,7 +390,7 @@ class Runner:
 
 
 def st_history(inv, max_steps):
-    op = MP.st_op(inv, multi=False)
+    op = MP.st_op(inv, multi=False, kw_hold=False)
     nested = st.one_of(st.none(), st.tuples(st.integers(0, 40), st.integers(0, 5)).map(list))
     steps = st.one_of(
         st.tuples(st.just('commit'), op, nested).map(list),
@@ -411,7 +405,17 @@ def st_history(inv, max_steps):
         st.tuples(st.just('entity_mutate'), st.integers(0, 200), st.integers(0, 40), st.integers(0, 5)).map(list),
         st.tuples(st.just('published_mutate'), st.integers(0, 50), st.integers(0, 40), st.integers(0, 5)).map(list),
     )
-    return st.lists(steps, min_size=1, max_size=max_steps)
+    dels = inv.deletable + [h for h, _c, _p in inv.pool]
+    upd = {h: c for h, c in inv.updatable}
+    cycle = st.tuples(st.sampled_from([h for h in inv.deletable if h in upd]), st.integers(0, 6), MP.IFACE, MP.IFACE).flatmap(
+        lambda t: T.instance_spec(T.all_classes()[upd[t[0]]]).map(lambda spec: [
+            ['commit', ['descr_update', t[0], spec, 'classic'], None],
+            ['commit', ['descr_delete', t[0], t[2]], None],
+            ['abort', ['descr_recreate', t[0], t[3]], t[1], None],
+            ['commit', ['descr_recreate', t[0], t[3]], None]]))
+    _ = dels
+    blocks = st.one_of(steps.map(lambda s_: [s_]), steps.map(lambda s_: [s_]), steps.map(lambda s_: [s_]), cycle)
+    return st.lists(blocks, min_size=1, max_size=max_steps).map(lambda bl: [s_ for b in bl for s_ in b][:max_steps + 4])
 
 
 def case_fn(ctx, history):
@@ -428,7 +432,7 @@ def shard(ctx, n, max_steps):
 
 def run(ctx):
     quick = ctx.tier == 'quick'
-    R.run_shards(ctx, __name__, 'shard', [(60 if quick else 900, 10 if quick else 16)] * R.NPROC)
+    R.run_shards(ctx, __name__, 'shard', [(40 if quick else 900, 10 if quick else 16)] * R.NPROC)
 
 
 def replay(part, case):
